@@ -27,7 +27,7 @@ type NewReq struct {
 	Named  bool   `json:"named,omitempty"`
 	Args   []RV   `json:"args,omitempty"`
 	Hash   []KV   `json:"hash,omitempty"`
-	Origin string `json:"origin,omitempty"` // "", "named-of:<i>", "roundtrip:<i>"
+	Origin string `json:"origin,omitempty"` // "", "named-of:<i>", "positional-of:<i>", "roundtrip:<i>"
 }
 
 type World struct {
@@ -331,6 +331,9 @@ func runWorld(root px.Context, w *World) *WorldObs {
 					}
 					w.News = append(w.News, NewReq{T: r.T, Named: true, Hash: h, Origin: fmt.Sprintf("named-of:%d", i)})
 				}
+			} else if args, ok := positionalOf(wo.Defs[r.T].Info, r.Hash); ok {
+				// the positional counterpart of a named construction that gives exactly the first k attributes
+				w.News = append(w.News, NewReq{T: r.T, Args: args, Origin: fmt.Sprintf("positional-of:%d", i)})
 			}
 			if o.Outside == "" && o.IHErr == "" {
 				w.News = append(w.News, NewReq{T: r.T, Named: true, Hash: o.InitHash, Origin: fmt.Sprintf("roundtrip:%d", i)})
@@ -358,6 +361,27 @@ func runWorld(root px.Context, w *World) *WorldObs {
 		}
 	})
 	return wo
+}
+
+// positionalOf: when the keys of the named-argument hash are exactly the names of the first k constructor
+// attributes (in any order), the tuple of their values in positional order. A single Hash value is left
+// out (as the only argument it would be taken for a named-argument hash).
+func positionalOf(info []AttrObs, h []KV) ([]RV, bool) {
+	if len(h) > len(info) {
+		return nil, false
+	}
+	args := make([]RV, len(h))
+	for k := range args {
+		v, ok := vHash(h...).get(info[k].Name)
+		if !ok {
+			return nil, false
+		}
+		args[k] = v
+	}
+	if len(args) == 1 && args[0].K == "hash" {
+		return nil, false
+	}
+	return args, true
 }
 
 func originIndex(o string) (kind string, idx int) {
